@@ -162,6 +162,46 @@ CLAIMED = {
         "Conditional on reported success (explicit solver tolerance 1e-9); mild nonlinearities only; deviation mode not generated.",
         "DESIGN.md section 3, C06",
     ),
+    "C10": (
+        "model-based operation sequences (drawn as plain data) on a pool of live series mirrored by a dict reference model, compared after every step",
+        "Sequences of 3-25 public operations (constructors, item/span/variant writes, reads, shifts incl. keyword shifts, clip, overlay, underlay, "
+        "hstack, arithmetic and comparison with scalars and other live series incl. empty and non-overlapping ones, element-wise, statistical, "
+        "moving-window, fill and extrapolation functions, copy, redate; method and functional forms) run on up to three live series and on "
+        "dict[(period, variant)] models; after every step values, variant counts, reported span, trim rule (after writes and arithmetic), "
+        "bit-identity of untouched series, absence of aliasing and input immutability of functional forms are compared.",
+        "Undocumented edge readings are listed under ASSUMPTIONS and adopted, not asserted; sequences <= 25 steps, spans <= 12 periods.",
+        "DESIGN.md section 3, C10",
+    ),
+    "C17": (
+        "Hypothesis-generated Sequential models as expression structures rendered to source; own evaluator on the output databox for every equation/period under both execution orders; plans",
+        "Models of 1-6 equations (all left-hand transforms, identities, lags, leads, parameters, pseudofunction leaves) are drawn as structures and "
+        "rendered to text; after simulate() the harness's own evaluator checks transform(lhs) = rhs + residual in every simulated period, the "
+        "value and residual back-out at points exogenized directly / through a transform / when data are available, untouched cells, identities "
+        "without residual, and agreement of the two execution orders whenever the harness's dependency analysis says no stale cell was read; a "
+        "shuffled rendering is judged as written and again after sequentialize().",
+        "Rounding-bound tolerance (1e-10 x accumulated magnitudes); out-of-domain cases are skipped by a harness-side simulation.",
+        "DESIGN.md section 3, C17",
+    ),
+    "C19": (
+        "Hypothesis-generated databoxes: CSV round trip through temp files, dataslate round trip, and model-based databox operation sequences against dict mirrors",
+        "Databoxes mixing all frequencies, spans, 1-3 variants, NaNs and descriptions are written with the offered CSV options and read back "
+        "(names, descriptions, frequencies, spans, values to the declared rounding); Dataslate.from_databox(...).to_databox() must return the "
+        "input on the span and NaN elsewhere with fallbacks/overwrites exactly where declared; sequences of overlay, underlay, clip, prepend, "
+        "copy, shallow, rename, keep, remove, merge with list/predicate/None selections are mirrored on dict models and compared after every "
+        "step incl. bit-identity of untouched items and the documented aliasing of copy vs shallow.",
+        "Undocumented content (empty series, scalars through CSV, delimiter inside descriptions, rename collisions) is not generated or not asserted; see ASSUMPTIONS.",
+        "DESIGN.md section 3, C19",
+    ),
+    "C20": (
+        "model-based operation sequences over an original model and derived objects (copy, pickle, dill, save/load, portable) against per-variant lineage-replay shadows",
+        "For generated Simultaneous models a pool of objects derived by copy/pickle/dill/save-load/portable receives interleaved assign, "
+        "assign-std, solve, steady and alter_num_variants operations; every variant of every object is shadowed by a fresh single-variant model on "
+        "which only its own lineage is replayed, and parameters, stds, steady state, T/P/K/Z/H/D, a fixed simulation and the Kalman likelihood "
+        "are compared after every step (aliasing, stale state after pickling and cross-variant leakage show as mismatches); the portable form "
+        "must round-trip names, kinds, log status, equations, flags and values; smaller sequence checks cover Sequential and RedVAR.",
+        "Results, not object identity, are compared (Schur-basis dependent matrices excluded); get_variant views are only read; sequences <= 12 steps.",
+        "DESIGN.md section 3, C20",
+    ),
 }
 
 NOT_BUILT_REASON = "check not built yet in this round (design in DESIGN.md section 3); not claimed until it is quiet on the unchanged tree and kills its mutants"
